@@ -48,7 +48,27 @@ Section Record13.
     let clen := length inner + 16 in
     Some (seal (nonce13 iv seq) (aad13 clen) inner).
 
+  (* tls13_gcm_decrypt (as repaired by commit 196ee26): the scan
+       while (mlen > 0) { mlen--; if (out[mlen] != 0) { *record_type = out[mlen]; break; } }
+     cannot run below 0; on an unknown or absent inner type the function stores *outlen = 0 and
+     returns -1; *outlen = mlen only on success. *)
   Definition tls13_gcm_decrypt (iv seq inp : list N) : dec13 :=
+    let inlen := length inp in
+    if inlen <? 16 then Dec13Err None else
+    let mlen := inlen - 16 in
+    match open (nonce13 iv seq) (aad13 inlen) (firstn mlen inp) (skipn mlen inp) with
+    | None => Dec13Err None
+    | Some out =>
+      match scan_rev (rev out) with
+      | (t, Some k) => if record_type_known t then Dec13Ok t (firstn k out) else Dec13Err (Some 0%N)
+      | (_, None) => Dec13Err (Some 0%N)
+      end
+    end.
+
+  (* the code before 196ee26 (DESIGN section 5 #21), kept only for the Example in
+     Tls/Record13Proofs.v: `while (mlen--)` left mlen = (size_t)-1 and `*outlen = mlen` was
+     executed before the type check *)
+  Definition tls13_gcm_decrypt_before_196ee26 (iv seq inp : list N) : dec13 :=
     let inlen := length inp in
     if inlen <? 16 then Dec13Err None else
     let mlen := inlen - 16 in
@@ -58,7 +78,7 @@ Section Record13.
       match scan_rev (rev out) with
       | (t, Some k) =>
         if record_type_known t then Dec13Ok t (firstn k out) else Dec13Err (Some (N.of_nat k))
-      | (_, None) => Dec13Err (Some size_max)   (* DESIGN section 5 #21 *)
+      | (_, None) => Dec13Err (Some size_max)
       end
     end.
 
